@@ -1649,3 +1649,234 @@ _run_before_generic = run
 def run(chk):       # noqa: F811
     _run_before_generic(chk)
     _generic_rules(chk)
+
+
+# ---------------------------------------------------------------------------------------------------------------
+# C03.index-domain and C03.sign (added after two seeded changes were not reported)
+#
+# C03.index-domain  in recognizers_number.number.extractors: in `for v in range(.., len(X) [+-c])` every subscript
+#                   Y[v (+-c)] of the body reads a list known to be as long as X: Y is X, or Y is built from X with the same
+#                   length ([..] * len(X), a comprehension / map over X, or X a comprehension over Y).  A bound taken from
+#                   another list silently truncates the scan (the percentage <-> number pairing) or raises IndexError,
+#                   which the models swallow.
+# C03.sign          in the number parsers: a value that comes from a producer which already applies a written '-'
+#                   (reaches a `c == '-'` test, i.e. _get_digital_value) is negated afterwards only idempotently (`value > 0`
+#                   in the guard) or under a flag that is set together with stripping the sign from the text handed to the
+#                   producer.  Otherwise the sign is applied twice.
+
+INDEX_DOMAIN_MODULES = ('recognizers_number.number.extractors',)
+SIGN_MODULES = ('recognizers_number.number.parsers', 'recognizers_number.number.cjk_parsers')
+
+
+def _len_of(e):
+    """len(X) [+- c] -> unparse(X) or None"""
+    if isinstance(e, ast.BinOp) and isinstance(e.op, (ast.Add, ast.Sub)) and isinstance(e.right, ast.Constant):
+        e = e.left
+    if isinstance(e, ast.Call) and isinstance(e.func, ast.Name) and e.func.id == 'len' and len(e.args) == 1:
+        return ast.unparse(e.args[0])
+    return None
+
+
+def index_domain_instances(fn):
+    """(loop, subscript node, X, Y, verdict, why) for every subscript by the loop variable of a len()-bounded range loop"""
+    assigns = {}
+    for n in ast.walk(fn):
+        tgt = val = None
+        if isinstance(n, ast.Assign) and len(n.targets) == 1:
+            tgt, val = n.targets[0], n.value
+        elif isinstance(n, ast.AnnAssign) and n.value is not None:
+            tgt, val = n.target, n.value
+        if isinstance(tgt, ast.Name):
+            assigns.setdefault(tgt.id, []).append(val)
+
+    def built_from(y, x):
+        """is list y constructed with the length of x?"""
+        for v in assigns.get(y, []):
+            if isinstance(v, ast.BinOp) and isinstance(v.op, ast.Mult):
+                for a, b in ((v.left, v.right), (v.right, v.left)):
+                    if isinstance(a, ast.List) and _len_of(b) == x and not (isinstance(b, ast.BinOp)):
+                        return 'built as [..] * len(%s)' % x
+            if isinstance(v, ast.ListComp) and len(v.generators) == 1 and not v.generators[0].ifs \
+                    and ast.unparse(v.generators[0].iter) == x:
+                return 'comprehension over %s' % x
+            if isinstance(v, ast.Call) and isinstance(v.func, ast.Name) and v.func.id == 'list' and len(v.args) == 1:
+                m = v.args[0]
+                if isinstance(m, ast.Call) and isinstance(m.func, ast.Name) and m.func.id == 'map' and len(m.args) == 2 \
+                        and ast.unparse(m.args[1]) == x:
+                    return 'map over %s' % x
+        return None
+
+    def is_mapping(y):
+        return any(isinstance(v, ast.Dict) or (isinstance(v, ast.Call) and isinstance(v.func, ast.Name) and v.func.id == 'dict')
+                   for v in assigns.get(y, []))
+    out = []
+    for loop in ast.walk(fn):
+        if not (isinstance(loop, ast.For) and isinstance(loop.target, ast.Name) and isinstance(loop.iter, ast.Call)
+                and isinstance(loop.iter.func, ast.Name) and loop.iter.func.id == 'range' and 1 <= len(loop.iter.args) <= 3):
+            continue
+        stop = loop.iter.args[0] if len(loop.iter.args) == 1 else loop.iter.args[1]
+        x = _len_of(stop)
+        if x is None:
+            continue
+        v = loop.target.id
+        for st in loop.body:
+            for n in ast.walk(st):
+                if not isinstance(n, ast.Subscript) or isinstance(n.slice, ast.Slice):
+                    continue
+                i = n.slice
+                if isinstance(i, ast.BinOp) and isinstance(i.op, (ast.Add, ast.Sub)) and isinstance(i.right, ast.Constant):
+                    i = i.left
+                if not (isinstance(i, ast.Name) and i.id == v):
+                    continue
+                y = ast.unparse(n.value)
+                if y == x:
+                    out.append((loop, n, x, y, True, 'same list'))
+                    continue
+                if not isinstance(n.value, ast.Name) or is_mapping(y):
+                    continue
+                why = built_from(y, x) or (built_from(x, y) if x.isidentifier() else None)
+                out.append((loop, n, x, y, why is not None, why or 'no length relation between %s and %s is visible' % (y, x)))
+    return out
+
+
+def _contains_dash_test(fn):
+    for n in ast.walk(fn):
+        if isinstance(n, ast.Compare) and len(n.ops) == 1 and isinstance(n.ops[0], ast.Eq):
+            for e in (n.left, n.comparators[0]):
+                if isinstance(e, ast.Constant) and e.value == '-':
+                    return True
+    return False
+
+
+def _flip_of(value, target_text):
+    """is `value` the negation of the expression whose text is target_text?"""
+    if isinstance(value, ast.UnaryOp) and isinstance(value.op, ast.USub) and ast.unparse(value.operand) == target_text:
+        return True
+    if isinstance(value, ast.BinOp) and isinstance(value.op, ast.Mult):
+        for a, b in ((value.left, value.right), (value.right, value.left)):
+            neg1 = (isinstance(b, ast.UnaryOp) and isinstance(b.op, ast.USub) and isinstance(b.operand, ast.Constant) and b.operand.value == 1) \
+                or (isinstance(b, ast.Constant) and b.value == -1)
+            if neg1 and ast.unparse(a) == target_text:
+                return True
+    return False
+
+
+def sign_instances(idx, cls, fn):
+    """(flip node, target text, producer, verdict, why) for every negation of a value produced by a signing producer"""
+    signing_cache = {}
+
+    def signing(name, via_super_from=None):
+        key = (name, via_super_from.qual if via_super_from else None)
+        if key not in signing_cache:
+            signing_cache[key] = False
+            for k, f in reachable_methods(idx, cls, name):
+                if _contains_dash_test(f):
+                    signing_cache[key] = True
+                    break
+        return signing_cache[key]
+
+    def producer_calls(e):
+        for n in ast.walk(e):
+            if isinstance(n, ast.Call) and isinstance(n.func, ast.Attribute):
+                b = n.func.value
+                if (isinstance(b, ast.Name) and b.id == 'self') or (isinstance(b, ast.Call) and isinstance(b.func, ast.Name) and b.func.id == 'super'):
+                    yield n.func.attr
+    # assignments of locals from self-method calls
+    origin = {}
+    for n in ast.walk(fn):
+        if isinstance(n, ast.Assign) and len(n.targets) == 1 and isinstance(n.targets[0], ast.Name):
+            for p in producer_calls(n.value):
+                origin.setdefault(n.targets[0].id, set()).add(p)
+    # flags set together with a prefix strip
+    strip_flags = set()
+    for n in ast.walk(fn):
+        if isinstance(n, ast.If):
+            sets = [s.targets[0].id for s in n.body if isinstance(s, ast.Assign) and isinstance(s.targets[0], ast.Name)
+                    and isinstance(s.value, ast.Constant) and s.value.value is True]
+            strips = any(isinstance(s, ast.Assign) and isinstance(s.value, ast.Subscript) and isinstance(s.value.slice, ast.Slice)
+                         and s.value.slice.lower is not None and ast.unparse(s.targets[0]) == ast.unparse(s.value.value) for s in n.body)
+            if strips:
+                strip_flags.update(sets)
+    out = []
+
+    def walk(stmts, conds):
+        for st in stmts:
+            if isinstance(st, ast.If):
+                walk(st.body, conds + [st.test])
+                walk(st.orelse, conds)
+            elif isinstance(st, (ast.For, ast.While, ast.With, ast.Try)):
+                for part in ('body', 'orelse', 'finalbody'):
+                    walk(getattr(st, part, []) or [], conds)
+                for h in getattr(st, 'handlers', []) or []:
+                    walk(h.body, conds)
+            elif isinstance(st, ast.Assign) and len(st.targets) == 1:
+                t = st.targets[0]
+                ttxt = ast.unparse(t)
+                if not _flip_of(st.value, ttxt):
+                    continue
+                base = t.value.id if isinstance(t, ast.Attribute) and isinstance(t.value, ast.Name) and t.attr == 'value' else \
+                    (t.id if isinstance(t, ast.Name) else None)
+                if base is None:
+                    continue
+                prods = sorted(p for p in origin.get(base, ()) if signing(p))
+                if not prods:
+                    continue
+                leaves = []
+                for c in conds:
+                    leaves.extend(c.values if isinstance(c, ast.BoolOp) and isinstance(c.op, ast.And) else [c])
+                idem = any(isinstance(l, ast.Compare) and len(l.ops) == 1 and isinstance(l.ops[0], (ast.Gt, ast.GtE))
+                           and ast.unparse(l.left) == ttxt and isinstance(l.comparators[0], ast.Constant) and l.comparators[0].value == 0
+                           for l in leaves)
+                flagged = [l.id for l in leaves if isinstance(l, ast.Name) and l.id in strip_flags]
+                if idem:
+                    out.append((st, ttxt, prods, True, 'idempotent: guarded by %s > 0' % ttxt))
+                elif flagged:
+                    out.append((st, ttxt, prods, True, 'flag %s is set together with stripping the sign from the text' % flagged[0]))
+                else:
+                    out.append((st, ttxt, prods, False, 'unguarded'))
+    walk(fn.body, [])
+    return out
+
+
+def rule_index_domain_and_sign(chk):
+    idx = get_index()
+    chk.rule('C03.index-domain', 'a range(len(X)) loop variable only indexes X or lists built with the length of X', floor=8, control=True)
+    chk.rule('C03.sign', 'a value from a producer that already applies a written \'-\' is negated only idempotently or after the sign '
+                         'was stripped from the text', floor=2, control=True)
+    for name in INDEX_DOMAIN_MODULES:
+        m = idx.mod(name)
+        chk.consulted(m.path)
+        for _m, cls, fn in idx.functions(m):
+            q = '%s.%s' % (cls.name, fn.name) if cls else fn.name
+            for loop, node, x, y, good, why in index_domain_instances(fn):
+                chk.judge(good, 'C03.index-domain', m.path, '%s: %s in `for %s in %s`' % (q, ast.unparse(node), loop.target.id, ast.unparse(loop.iter)),
+                          '%s indexed up to len(%s): %s' % (y, x, why),
+                          '%s: the loop `for %s in %s` is bounded by the length of %s but indexes %s: %s - the scan stops early (or '
+                          'overruns) when the two lists differ in length' % (q, loop.target.id, ast.unparse(loop.iter), x, ast.unparse(node), why),
+                          node.lineno)
+    ctl = ast.parse("def f(results, extractresults):\n    for i in range(len(results)):\n        for j in range(i, len(results)):\n"
+                    "            if results[i].start == extractresults[j].start:\n                pass\n").body[0]
+    chk.control('C03.index-domain', any(not g for _l, _n, _x, _y, g, _w in index_domain_instances(ctl)))
+    for name in SIGN_MODULES:
+        m = idx.mod(name)
+        chk.consulted(m.path)
+        for cls in m.classes.values():
+            for fn in cls.methods.values():
+                for node, ttxt, prods, good, why in sign_instances(idx, cls, fn):
+                    chk.judge(good, 'C03.sign', m.path, '%s.%s: %s' % (cls.name, fn.name, ast.unparse(node)),
+                              'producer %s applies a written sign; negation %s' % ('/'.join(prods), why),
+                              '%s.%s negates %s although it comes from %s, which already turns a written \'-\' into a negative value, '
+                              'and the negation is neither guarded by `%s > 0` nor tied to stripping the sign from the text: a literal '
+                              'such as \'-12\' gets its sign applied twice' % (cls.name, fn.name, ttxt, '/'.join(prods), ttxt), node.lineno)
+    bnp = idx.cls('recognizers_number.number.parsers.BaseNumberParser')
+    ctl = ast.parse("def parse(self, s):\n    result = self._digit_number_parse(s)\n    if regex.search(self.config.x, s.text):\n"
+                    "        result.value = -result.value\n    return result\n").body[0]
+    chk.control('C03.sign', [g for _n, _t, _p, g, _w in sign_instances(idx, bnp, ctl)] == [False])
+
+
+_run_before_index_sign = run
+
+
+def run(chk):       # noqa: F811
+    _run_before_index_sign(chk)
+    rule_index_domain_and_sign(chk)
